@@ -776,3 +776,15 @@ def loop_entry(body, h, blocks):
                     last = s2
             return last
     return h
+
+
+def abbrev(s, aliases):
+    """replace long sub-signatures by names (longest first)"""
+    for k in sorted(aliases, key=len, reverse=True):
+        s = s.replace(k, aliases[k])
+    return s
+
+
+def var_sig(body, name):
+    d = var_def_exprs(body, name)
+    return sig(d[0][1]) if len(d) == 1 else None
